@@ -2181,6 +2181,13 @@ class Recipe:
         if name is not None and not isinstance(name, str):
             raise TypeError("Name must be a str.")
 
+        # the step keeps its own lists: what the caller does to theirs afterwards changes nothing, and a one-shot
+        # iterable survives the checks below and lasts until bake
+        if not isinstance(solute, (Substance, str)) and isinstance(solute, Iterable):
+            solute = list(solute)
+        kwargs = {key: (list(value) if not isinstance(value, str) and isinstance(value, Iterable) else value)
+                  for key, value in kwargs.items()}
+
         if not isinstance(solute, Substance):
             if not isinstance(solute, Iterable):
                 raise TypeError("Solute must be a Substance or an iterable of Substances.")
